@@ -7,6 +7,7 @@
 
 mod abs;
 mod fam_authz;
+mod fam_batched;
 mod fam_conform;
 mod schema;
 mod fam_eval;
@@ -66,6 +67,7 @@ fn family(name: &str) -> Option<(Runner, Driver)> {
         "validate" => (fam_validate::run, fam_validate::drive),
         "partial" => (fam_partial::run, fam_partial::drive),
         "tpe" => (fam_tpe::run, fam_tpe::drive),
+        "batched" => (fam_batched::run, fam_batched::drive),
         _ => return None,
     })
 }
